@@ -122,3 +122,28 @@ Proof.
   - exact (flight_budget_window (reno_cc F) (reno_spec F) st sp now c pn ops Hs Hmf Hwf Hfit HD).
   - exact (flight_budget_window (cubic_cc F) (cubic_spec F) st sp now c pn ops Hs Hmf Hwf Hfit HD).
 Qed.
+
+(* ---------- observation: the window the budget was computed from can be gone after the call ----------
+   CUBIC resets congestion_window to the initial window in on_packet_sent when the connection was idle for
+   K_CUBIC_MAX_IDLE_TIME; datagrams_to_send computes max_flight_bytes BEFORE, from the window that is about to be
+   reset.  After the call bytes_in_flight (34 968) exceeds the congestion window (12 000); the theorems above bound it
+   by the window read before the call (36 000).  Integer clock [ZF]; replayed on the real QuicPacketRecovery
+   (docs/C08.md). *)
+From AQ Require Import proofs.C08Theorems.
+
+Definition idle_hist : list (rop (T:=Z)) :=
+  map (fun i => OSend 2 i true true false 1 1200) [0;1;2;3;4;5;6;7;8;9;10;11;12;13;14;15;16;17;18;19]
+  ++ [OAck 2 [(0, 20)] 0 2].
+
+Definition idle_ops : list Builder.op :=
+  concat (repeat [Builder.OpStartPacket C13Consts.PT_ONE_RTT; Builder.OpStartFrame 8 4; Builder.OpPush 1100] 31)
+  ++ [Builder.OpFlush].
+
+Example cubic_idle_reset_after_budget :
+  let st := fst (run ZF (cubic_cc ZF) (rec_init ZF 3 100 1200 true (cubic_init ZF 1200 [])) idle_hist) in
+  let c := Builder.mkCfg true 1200 8 8 0 (Some (cb_cwnd (r_cc st) - cb_bif (r_cc st))) None (Some 1500) in
+  let st' := register (cubic_cc ZF) (fun _ => 2%nat) 10 st (built c 0 idle_ops) in
+  BuilderFlight.fl_disciplined c (Builder.init_st c 0) idle_ops = true /\
+  (cb_cwnd (r_cc st), cb_bif (r_cc st)) = (36000, 0) /\
+  (cb_cwnd (r_cc st'), cb_bif (r_cc st')) = (12000, 34968).
+Proof. cbv zeta. repeat split; vm_compute; reflexivity. Qed.
